@@ -160,33 +160,29 @@ static void ed_mul_combs_plain(ed_t r, const ed_t * t, const bn_t k) {
 #if ED_FIX == BASIC || !defined(STRIP)
 
 void ed_mul_pre_basic(ed_t * t, const ed_t p) {
-	bn_t n;
-
-	bn_null(n);
-
 	RLC_TRY {
-		bn_new(n);
-
-		ed_curve_get_ord(n);
-
+		/* Fill the whole table, the scalar can be longer than the order. */
 		ed_copy(t[0], p);
-		for (int i = 1; i < bn_bits(n); i++) {
+		for (int i = 1; i < RLC_ED_TABLE_BASIC; i++) {
 			ed_dbl(t[i], t[i - 1]);
 		}
 
-		ed_norm_sim(t + 1, (const ed_t *)t + 1, bn_bits(n) - 1);
+		ed_norm_sim(t + 1, (const ed_t *)t + 1, RLC_ED_TABLE_BASIC - 1);
 	}
 	RLC_CATCH_ANY {
 		RLC_THROW(ERR_CAUGHT);
-	}
-	RLC_FINALLY {
-		bn_free(n);
 	}
 }
 
 void ed_mul_fix_basic(ed_t r, const ed_t *t, const bn_t k) {
 	if (bn_is_zero(k)) {
 		ed_set_infty(r);
+		return;
+	}
+
+	if (bn_bits(k) > RLC_ED_TABLE_BASIC) {
+		/* The table has one entry per bit of the scalar. */
+		RLC_THROW(ERR_NO_VALID);
 		return;
 	}
 
